@@ -1,6 +1,7 @@
 // Partition independence (C01): two runs over the same buffer contents whose consumed bytes are both
 // prefixes of one stream `t` -- the whole of it whenever the run ended on end-of-stream / error --
 // agree on the outcome and on the number of bytes consumed up to the end of the head.
+#[verifier::spinoff_prover]
 pub proof fn thm_partition_independent<const N: usize>(pre: FixedBuf<N>, t: Seq<u8>,
         post1: FixedBuf<N>, evs1: Seq<Ev>, r1: Result<Head, HttpError>,
         post2: FixedBuf<N>, evs2: Seq<Ev>, r2: Result<Head, HttpError>)
@@ -30,6 +31,7 @@ pub proof fn thm_partition_independent<const N: usize>(pre: FixedBuf<N>, t: Seq<
     }
 }
 // a prefix `b` of t without delimiter is strictly shorter than the end of t's first delimiter
+#[verifier::spinoff_prover]
 pub proof fn lemma_delim_in_longer(a: Seq<u8>, b: Seq<u8>, t: Seq<u8>)
     requires has_delim(a), a.is_prefix_of(t), b.is_prefix_of(t), !has_delim(b)
     ensures b.len() < fd(t) + 4, fd(t) + 4 <= a.len()
